@@ -28,7 +28,7 @@ N = {'quick': 150, 'thorough': 5000}
 LEAN_MODULES = ['GnpyProofs.Props.C17']
 THEOREMS = [f'Gnpy.Chain.{t}' for t in (
     'design_deterministic', 'addInline_fixpoint', 'addMissing_fixpoint', 'addConn_fixpoint', 'split_fixpoint',
-    'padding_fixpoint', 'ampStep_fixpoint', 'redesign_fixpoint', 'export_rounding_partial',
+    'padding_fixpoint', 'padRun_idempotent_all', 'addPadding_idempotent', 'ampStep_fixpoint', 'redesign_fixpoint', 'export_rounding_partial',
     'redesign_eol_counterexample', 'redesign_eol_drift', 'simparams_restored', 'simparams_restored_any_prior',
     'simparams_restored_many', 'simparams_during', 'reload_rejects_dangling')]
 RULE = ('cases from one PRNG: (a) 60 % topologies/configurations of C08 (Raman crash inputs excluded, EOL = 0 in 75 % of '
@@ -232,7 +232,7 @@ def model_round(case, drv, ch, line_model, sels, pref_impl, pref_total, p0, lo, 
     args = model_chain(case, ch, [], lo, hi, target)
     args['chain']['line'] = line_model
     args.update(span_cfg(case['span']))
-    args.update(sels=sels, pref=f2b(pref_impl), pref_total=f2b(pref_total), src_power=f2b(p0))
+    args.update(sels=sels, pref=f2b(pref_impl), pref_total=f2b(pref_total), src_power=f2b(p0), display_power=f2b(p0))
     return drv.ask('c09.design', **args)
 
 
